@@ -89,6 +89,8 @@ type Config struct {
 	MaxPenalty       uint64 `json:"max_penalty,omitempty"`
 	TwoValidators    bool   `json:"two_validators,omitempty"`
 	Seed             []byte `json:"seed,omitempty"` // header AppHash = selection seed
+	FastUnbond       bool   `json:"fast_unbond,omitempty"`   // staking unbonding time 10 s (two blocks)
+	MaxValidators    uint32 `json:"max_validators,omitempty"`
 }
 
 func (c Config) withDefaults() Config {
@@ -213,6 +215,12 @@ func Genesis(enc cosmoscmd.EncodingConfig, actors []*Actor, cfg Config) (app.Gen
 	}
 	sp := stakingtypes.DefaultParams()
 	sp.BondDenom = Denom
+	if cfg.FastUnbond {
+		sp.UnbondingTime = 10 * time.Second
+	}
+	if cfg.MaxValidators != 0 {
+		sp.MaxValidators = cfg.MaxValidators
+	}
 	gs[stakingtypes.ModuleName] = cdc.MustMarshalJSON(stakingtypes.NewGenesisState(sp, vals, dels))
 	bals = append(bals, banktypes.Balance{Address: authtypes.NewModuleAddress(stakingtypes.BondedPoolName).String(), Coins: sdk.NewCoins(sdk.NewCoin(Denom, total))})
 	gs[authtypes.ModuleName] = cdc.MustMarshalJSON(authtypes.NewGenesisState(authtypes.DefaultParams(), accs))
